@@ -166,7 +166,7 @@ func runDiff(ops []Op) diffOut {
 				canon(normList(gm.V), false) == canon(normList(gr.V), false):
 				out.key = "C13/redis-hash/integer-field-read-back-as-float64"
 			case nm == nw && (op.Kind == "GetHash" || op.Kind == "GetAllHash" || op.Kind == "GetList") && gr.Err == "" && gm.Err == "":
-				out.key = "C13/redis-decode/" + op.Kind + "/member-value-differs-from-what-was-stored"
+				out.key = "C13/redis-container/" + op.Kind + "/contents-differ-from-memory-and-model"
 			case nm == nw:
 				out.key = fmt.Sprintf("C13/redis/%s/on=%s/memory-and-model=%s/redis=%s", opTag(op), coarse(class, gr, want), shortForm(nm), shortForm(nr))
 			default:
@@ -265,33 +265,61 @@ func genEdgeInt(t *rapid.T, label string) *Val {
 // genMember: list members are strings or exact int64 (other integer kinds would change
 // RemoveFromList's equality: memory compares Go values, Redis the JSON text).
 func genMember(t *rapid.T, label string) *Val {
-	if rapid.IntRange(0, 3).Draw(t, label+"Int") == 0 {
+	switch rapid.IntRange(0, 7).Draw(t, label+"Class") {
+	case 0:
 		return genEdgeInt(t, label+"Edge")
+	case 1, 2:
+		return genDiffStr(t, label)
 	}
-	return genDiffStr(t, label)
+	return sv(rapid.SampledFrom(escStr).Draw(t, label+"Esc"))
 }
 
 var diffKinds = map[string][]string{
 	"intscalar": {"Set", "Set", "Get", "Get", "Delete", "Exists", "SetNX", "CompareAndSwap", "CompareAndSwap"},
 	"scalar":    {"Set", "Set", "Get", "Get", "Delete", "Exists", "SetNX", "SetNX", "CompareAndSwap", "CompareAndSwap", "CompareAndSwap", "SetExpiration", "GetExpiration"},
 	"list":      {"SetList", "GetList", "GetList", "AppendToList", "AppendToList", "AppendToList", "RemoveFromList", "RemoveFromList", "Delete", "Exists"},
-	"hash":      {"SetHash", "SetHash", "SetHash", "GetHash", "GetHash", "GetHash", "GetAllHash", "GetAllHash", "DeleteHash", "Delete", "Exists"},
+	"hash":      {"SetHash", "SetHash", "SetHash", "SetHash", "GetHash", "GetHash", "GetHash", "GetAllHash", "GetAllHash", "DeleteHash", "Delete", "Exists", "SetExpiration", "SetExpiration", "GetExpiration"},
 	"counter":   {"Incr", "Incr", "IncrBy", "Get", "Delete", "Exists"},
 }
 
+var diffFields = []string{"f1", "f2", "f3", "f4", "f5"}
+
 var diffStr = []string{"a", "b", "7", `{"id":1}`, `{"id":2,"s":"x y"}`, "héllo<&>", "lock-owner:1700000000"}
+
+// list members / hash values whose JSON text depends on the encoder's escaping rules
+// (HTML escaping of & < >, quotes, backslash, U+2028/2029, control characters, non-BMP runes)
+var escStr = []string{
+	"https://h.example/p?a=1&b=2", "<b>bold</b>", `{"url":"/x?a=1&b=<2>","t":"<i>"}`, "a&b", "1<2", "2>1",
+	`say "hi"`, `back\slash`, "line\u2028sep\u2029end", "tab\tnl\nctl\x01", "emoji😀𝄞", "a", "b",
+}
 
 func genDiffStr(t *rapid.T, label string) *Val {
 	return sv(rapid.SampledFrom(diffStr).Draw(t, label))
 }
 
-func genDiffOp(t *rapid.T, shadow map[string]kstate) Op {
+// genDiffOp draws the next call. touched: hash keys whose lifetime was set explicitly
+// (see the SetHash case).
+func genDiffOp(t *rapid.T, shadow map[string]kstate, touched map[string]bool) Op {
 	if rapid.IntRange(0, 8).Draw(t, "sleep?") == 0 {
 		return Op{Kind: "sleep"}
 	}
 	k := rapid.SampledFrom(diffKeys).Draw(t, "key")
 	op := Op{Kind: rapid.SampledFrom(diffKinds[k.kind]).Draw(t, "op"), Key: k.name}
 	cur := shadow[k.name]
+	if !cur.Present {
+		delete(touched, k.name)
+	}
+	if k.kind == "hash" {
+		h, _ := cur.V.(map[string]any)
+		switch {
+		case op.Kind == "SetExpiration" && len(h) == 0:
+			op.Kind = "SetHash" // nothing to re-time yet
+		case op.Kind == "SetExpiration":
+			touched[k.name] = true
+		case op.Kind == "DeleteHash" && touched[k.name] && len(h) <= 2:
+			op.Kind = "GetHash"
+		}
+	}
 	if k.kind == "intscalar" {
 		// a scalar key that only ever holds int64 (mixing "7" and 7 under one key would compare
 		// Go values on memory and text on Redis; no caller does)
@@ -340,16 +368,29 @@ func genDiffOp(t *rapid.T, shadow map[string]kstate) Op {
 		op.Val = genMember(t, "val")
 	case "RemoveFromList":
 		op.Val = genMember(t, "val")
-		if l, ok := cur.V.([]any); ok && len(l) > 0 && rapid.Bool().Draw(t, "member") {
+		if l, ok := cur.V.([]any); ok && len(l) > 0 && rapid.IntRange(0, 3).Draw(t, "member") > 0 {
 			op.Val = valOf(l[rapid.IntRange(0, len(l)-1).Draw(t, "idx")])
 		}
 	case "SetHash":
-		op.Field = rapid.SampledFrom(fieldPool).Draw(t, "field")
-		switch rapid.IntRange(0, 5).Draw(t, "intValue") {
+		op.Field = rapid.SampledFrom(diffFields).Draw(t, "field")
+		if h, _ := cur.V.(map[string]any); touched[k.name] && len(h) == 1 {
+			// Redis re-applies the 24 h default whenever a hash has exactly one field after HSET (its
+			// test for "new key"): overwriting the only field of a hash with an explicit lifetime
+			// would differ from memory for that Redis-only reason. Add a NEW field instead.
+			for _, f := range diffFields {
+				if _, has := h[f]; !has {
+					op.Field = f
+					break
+				}
+			}
+		}
+		switch rapid.IntRange(0, 6).Draw(t, "intValue") {
 		case 0, 1:
 			op.Val = iv(int64(rapid.IntRange(0, 100000).Draw(t, "count"))) // stats counters store int64 fields
 		case 2, 3:
 			op.Val = genEdgeInt(t, "edge")
+		case 5:
+			op.Val = sv(rapid.SampledFrom(escStr).Draw(t, "esc"))
 		case 4:
 			// other integer kinds: compared as "integer with this exact value" (stats readers accept
 			// int64 and int; memory hands back the stored kind, Redis always int64 - not asserted)
@@ -368,9 +409,9 @@ func genDiffOp(t *rapid.T, shadow map[string]kstate) Op {
 			op.Val = genDiffStr(t, "val")
 		}
 	case "GetHash", "DeleteHash":
-		op.Field = rapid.SampledFrom(fieldPool).Draw(t, "field")
+		op.Field = rapid.SampledFrom(diffFields).Draw(t, "field")
 		if h, ok := cur.V.(map[string]any); ok && op.Kind == "GetHash" && rapid.IntRange(0, 3).Draw(t, "present") > 0 {
-			for _, f := range fieldPool { // first field that holds a value (pool order: deterministic)
+			for _, f := range diffFields { // first field that holds a value (pool order: deterministic)
 				if _, has := h[f]; has {
 					op.Field = f
 					break
@@ -432,20 +473,8 @@ func TestDifferentialRedis(t *testing.T) {
 		shortKeys := map[string]bool{}
 		sleeps := 0
 		c := Case{Part: "diff"}
-		for i := 0; i < n; i++ {
-			op := genDiffOp(t, shadow)
-			if op.Kind == "sleep" {
-				if sleeps >= vkit.Pick(2, 3) {
-					continue
-				}
-				sleeps++
-				for k := range shortKeys {
-					delete(shadow, k)
-					delete(shortKeys, k)
-				}
-				c.Ops = append(c.Ops, op)
-				continue
-			}
+		touched := map[string]bool{}
+		apply := func(op Op) {
 			st2, _, act := step(shadow[op.Key], op)
 			shadow[op.Key] = st2
 			switch act {
@@ -465,6 +494,35 @@ func TestDifferentialRedis(t *testing.T) {
 				c.Ops = append(c.Ops, Op{Kind: "Delete", Key: op.Key})
 				delete(shadow, op.Key)
 				delete(shortKeys, op.Key)
+				delete(touched, op.Key)
+			}
+		}
+		for i := 0; i < n; i++ {
+			op := genDiffOp(t, shadow, touched)
+			if op.Kind == "sleep" {
+				if sleeps >= vkit.Pick(2, 3) {
+					continue
+				}
+				sleeps++
+				for k := range shortKeys {
+					delete(shadow, k)
+					delete(shortKeys, k)
+					delete(touched, k)
+				}
+				c.Ops = append(c.Ops, op)
+				continue
+			}
+			apply(op)
+			// look at a container right after changing it
+			switch op.Kind {
+			case "RemoveFromList", "AppendToList", "SetList":
+				if rapid.IntRange(0, 2).Draw(t, "readBack") > 0 {
+					apply(Op{Kind: "GetList", Key: op.Key})
+				}
+			case "SetHash":
+				if rapid.IntRange(0, 2).Draw(t, "readBack") == 0 {
+					apply(Op{Kind: "GetHash", Key: op.Key, Field: op.Field})
+				}
 			}
 		}
 		finishDiff(t, c, runDiff(c.Ops))
